@@ -204,6 +204,13 @@ func (d *Directory) updateChildEntry(c child) error {
 		return err
 	}
 
+	// A directory that was unlinked from its parent (removed or moved away)
+	// must not re-add itself there when a descendant is flushed later, e.g.
+	// through a file descriptor that is still open (see inode.unlinked).
+	if d.unlinked.Load() {
+		return nil
+	}
+
 	// Continue to propagate the update process upwards
 	// (all the way up to the root).
 	return d.parent.updateChildEntry(child{d.name, newDirNode})
